@@ -1,6 +1,7 @@
 pub mod c01;
 pub mod c02;
 pub mod c10;
+pub mod c11;
 pub mod c12;
 pub mod c13;
 pub mod c21;
@@ -19,6 +20,7 @@ pub fn get(id: &str) -> Option<&'static dyn Property> {
         "C08" => Some(&embed::Embed(embed::Which::C08)),
         "C09" => Some(&embed::Embed(embed::Which::C09)),
         "C10" => Some(&c10::C10),
+        "C11" => Some(&c11::C11),
         "C12" => Some(&c12::C12),
         "C13" => Some(&c13::C13),
         "C21" => Some(&c21::C21),
@@ -29,4 +31,4 @@ pub fn get(id: &str) -> Option<&'static dyn Property> {
     }
 }
 
-pub const ALL_IDS: &[&str] = &["C01", "C02", "C07", "C08", "C09", "C10", "C12", "C13", "C21", "C23", "C35", "C39"];
+pub const ALL_IDS: &[&str] = &["C01", "C02", "C07", "C08", "C09", "C10", "C11", "C12", "C13", "C21", "C23", "C35", "C39"];
